@@ -18,7 +18,7 @@ def doc_class():
     if _doc:
         return _doc["Doc"]
     F = CT.fixtures()
-    S, Color = F["S"], F["Color"]
+    S, Color, Facing = F["S"], F["Color"], F["Facing"]
 
     class Inner(S.Serializable):
         a: int = 0
@@ -30,6 +30,9 @@ def doc_class():
         b: bool = False
         s: str = ""
         e: Color = Color.RED
+        z: Facing = Facing.SOUTH
+        lz: List[Facing] = None
+        dz: Dict[Facing, int] = None
         n: Inner = S.Default
         li: List[int] = None
         ls: List[str] = None
@@ -54,7 +57,7 @@ def run(ctx):
     Doc = doc_class()
     ctx.level = "exploration"
     ctx.exhaustive = True
-    ctx.rule = ("every single field choice and every pair of field choices of the fixture class (19 annotated shapes) enumerated by TLC; distinct = assignments; "
+    ctx.rule = ("every single field choice and every pair of field choices of the fixture class (22 annotated shapes) enumerated by TLC; distinct = assignments; "
                 "non-trivial = the assignment overrides a container, enum, nested or tuple field")
     ctx.assumptions += ["one level of generic containers (as documented)", "None for nested Serializable fields is outside the documented shapes", "the abstraction function Python value -> term is trusted"]
     consts = "CONSTANT Pairs = TRUE\n"
